@@ -187,7 +187,10 @@ def judge(ctx, binary, cases, label):
         if io.startswith("abort:"):
             sig = io[len("abort:"):]
             ctx.stat("impl-abort")
-            small = shrink(ctx, binary, cap, ops, lambda out: out.startswith("abort:"))
+            small = ops
+            if ("abort:" + sig) not in ctx.extra.setdefault("shrunk_signatures", []):
+                ctx.extra["shrunk_signatures"].append("abort:" + sig)
+                small = shrink(ctx, binary, cap, ops, lambda out: out.startswith("abort:"))
             ctx.fail("abort:" + sig, "fibonacci_heap touches memory outside its arrays / aborts (%s) on a %d-operation history, capacity %d"
                      % (sig, len(small), cap), case=case_line(cap, small),
                      detail={"impl": io, "model": mo, "stderr": getattr(ctx, "last_abort_stderr", "")[-1500:]})
@@ -197,7 +200,10 @@ def judge(ctx, binary, cases, label):
 
             def bad(out, cap=cap):
                 return False
-            small = shrink_spec(ctx, binary, cap, ops)
+            small = ops
+            if "spec-reject" not in ctx.extra.setdefault("shrunk_signatures", []):
+                ctx.extra["shrunk_signatures"].append("spec-reject")
+                small = shrink_spec(ctx, binary, cap, ops)
             ctx.fail("spec-reject", "fibonacci_heap output is not an indexed-min-queue behaviour (%s)" % so,
                      case=case_line(cap, small), detail={"impl": io, "model": mo, "spec": so})
             continue
